@@ -3,6 +3,7 @@ import ast
 
 from . import rule, info
 from ..program import AnalysisError, src, norm, ClassInfo
+from ..pattern import match, matches
 from ..util import (is_name, calls_in, callee_qual, deref, ancestors, handler_outcomes, handler_body_nodes,
                     enclosing_trys, handler_covers, completes_normally, evaluator_calls, fmt_witness)
 
@@ -446,3 +447,42 @@ def finalisation_wiring(ctx):
             and isinstance(c.args[3], ast.BinOp) and isinstance(c.args[3].op, ast.Add)
     ctx.ob(ok, r, 'branches are rendered by the same function one level deeper with the same root error')
     ctx.floor(5)
+
+
+@rule('C05.8')
+def formatting_invariants(ctx):
+    """a few structural facts of the renderer that the trace's faithfulness depends on
+    (the formatting as a whole stays undecided)"""
+    p = ctx.program
+    r = ctx.unit('core.format_target_spec_trace')
+    loops = [n for n in r.own_nodes() if isinstance(n, ast.For) and isinstance(n.iter, ast.Call)
+             and callee_qual(p, r, n.iter) == 'core._unpack_stack']
+    ctx.require(len(loops) == 1 and isinstance(loops[0].target, ast.Tuple), 'trace renderer: record loop not found')
+    names = [e.id for e in loops[0].target.elts]
+    tgt = names[2]
+    prev = r.params[4] if len(r.params) > 4 else None
+    g = [n for n in loops[0].body if isinstance(n, ast.If) and isinstance(n.test, ast.Compare) and is_name(n.test.left, tgt)]
+    ok = len(g) == 1 and isinstance(g[0].test.ops[0], ast.IsNot) and is_name(g[0].test.comparators[0], prev)
+    ctx.ob(ok, r, 'a Target line is printed whenever the target is a different object (identity, not ==): %s'
+           % (norm(g[0].test) if g else None),
+           '' if ok else 'equal-but-different targets (1 / 1.0 / True) would hide the target a spec actually received')
+    upd = [n for n in loops[0].body if isinstance(n, ast.Assign) and is_name(n.targets[0], prev) and is_name(n.value, tgt)]
+    ctx.ob(len(upd) == 1, r, 'the remembered target is updated at every level: %s' % [norm(u_) for u_ in upd])
+    # the error line of a level: printed unless it is the root error
+    e = [n for n in loops[0].body if isinstance(n, ast.If) and names[3] in norm(n.test) and 'root_error' in norm(n.test)]
+    ok = len(e) == 1 and matches(e[0].test, '%s is not None and %s is not %s' % (names[3], names[3], r.params[1]))
+    ctx.ob(ok, r, 'a level\'s own error is printed unless it is the root error (identity): %s' % (norm(e[0].test) if e else None))
+    # _finalize: only a leading caret-only line is trimmed
+    f = ctx.unit('core.GlomError._finalize')
+    trims = [n for n in f.own_nodes() if isinstance(n, ast.If) and isinstance(n.test, ast.Compare) and 'set(' in norm(n.test)]
+    ok = len(trims) == 1 and matches(trims[0].test, "set(self._tb_lines[0]) <= $$chars") and \
+        matches(trims[0].body[0], 'self._tb_lines = self._tb_lines[1:]') and not [x for x in f.own_nodes() if isinstance(x, (ast.ListComp, ast.GeneratorExp))]
+    ctx.ob(ok, f, 'only a leading caret-only line of the kept traceback tail is dropped: %s' % [norm(t.test) for t in trims],
+           '' if ok else 'lines of the original error message could be filtered out')
+    keep = [n for n in f.own_nodes() if isinstance(n, ast.Assign) and matches(n, 'self._tb_lines = $t[-$l:]')]
+    ctx.ob(len(keep) == 1, f, 'the message keeps the tail of the original traceback (the original error lines)')
+    # truncation: long values are cut to the width with a length suffix, never dropped
+    tv = ctx.unit('core._format_trace_value')
+    rets = [n for n in tv.own_nodes() if isinstance(n, ast.Return)]
+    ctx.ob(len(rets) == 1 and is_name(rets[0].value), tv, 'every value yields a line (truncated, never omitted)')
+    ctx.floor(6)
